@@ -111,11 +111,28 @@ func formAssignments(alphabet []form, n int) [][]form {
 // slice = one complete product of domains for one shape:
 // forms x damages x (revision arguments of the shape) x flags x (fetchexclude values of the shape)
 type sliceDef struct {
-	name    string
-	shape   int
-	forms   [][]form
-	damages [][]int
-	flags   []flagSet
+	name     string
+	shape    int
+	forms    [][]form
+	damages  [][]int
+	flags    []flagSet
+	attrVars []attrVariant // nil: only the short .gitattributes files of the shape table
+	revs     []revSpec     // nil: every revision argument of the shape in this tier
+	excl     []exclSpec    // nil: every fetchexclude value of the shape
+}
+
+func (sl *sliceDef) domains(p *plan, sh *shape) ([]attrVariant, []revSpec, []exclSpec) {
+	av, rv, ex := sl.attrVars, sl.revs, sl.excl
+	if av == nil {
+		av = []attrVariant{attrShort}
+	}
+	if rv == nil {
+		rv = p.revs[sl.shape]
+	}
+	if ex == nil {
+		ex = sh.excl
+	}
+	return av, rv, ex
 }
 
 type plan struct {
@@ -168,26 +185,57 @@ func makePlan(shs []shape, thorough bool) plan {
 		n := len(sh.objects)
 		none := make([]int, n)
 		canon := allCanon(sh.nslots)
+		if len(sh.attrVars) > 0 {
+			// attrsize: size and layout of the root / nested .gitattributes blob x EVERY form assignment (pointer check)
+			all := formAssignments([]form{fCanon, fCRLF, fRaw}, sh.nslots)
+			if thorough {
+				p.slices = append(p.slices, sliceDef{name: "attrsize/" + sh.name, shape: si, forms: all, damages: [][]int{none}, flags: []flagSet{flNone, flPtr}, attrVars: sh.attrVars})
+			} else {
+				var quickVars []attrVariant
+				for _, v := range sh.attrVars {
+					if v.rootSize == 0 || v.nestedSize == 0 { // the combined variant is thorough-only
+						quickVars = append(quickVars, v)
+					}
+				}
+				p.slices = append(p.slices, sliceDef{name: "attrsize/" + sh.name, shape: si, forms: all, damages: [][]int{none}, flags: []flagSet{flNone, flPtr},
+					attrVars: quickVars, revs: revs[:1], excl: sh.excl[:1]})
+			}
+		}
 		if !thorough {
 			// objects: all-canonical history x every vector with <=1 damaged object
-			p.slices = append(p.slices, sliceDef{"objects/" + sh.name, si, [][]form{canon}, damageVectors(n, 0, 1), []flagSet{flNone, flDry}})
+			// (fetchexclude is crossed here only for shape dup; for the others the pointers/* slice below crosses it with the mixed damage)
+			oex := sh.excl[:1]
+			if sh.name == "dup" {
+				oex = sh.excl
+			}
+			p.slices = append(p.slices, sliceDef{name: "objects/" + sh.name, shape: si, forms: [][]form{canon}, damages: damageVectors(n, 0, 1), flags: []flagSet{flNone, flDry}, excl: oex})
 			// pointers: every other form assignment x the mixed damage vector
-			p.slices = append(p.slices, sliceDef{"pointers/" + sh.name, si, without(formAssignments(p.alpha, sh.nslots), canon), [][]int{mixedDamage(n)}, []flagSet{flNone, flPtr, flObj}})
+			p.slices = append(p.slices, sliceDef{name: "pointers/" + sh.name, shape: si, forms: without(formAssignments(p.alpha, sh.nslots), canon), damages: [][]int{mixedDamage(n)}, flags: []flagSet{flNone, flPtr, flObj}})
 			continue
 		}
-		p.slices = append(p.slices, sliceDef{"objects1/" + sh.name, si, sh.objForms, damageVectors(n, 0, 1), []flagSet{flNone, flObj, flPtr, flDry}})
-		p.slices = append(p.slices, sliceDef{"objects2/" + sh.name, si, [][]form{canon}, damageVectors(n, 2, 2), []flagSet{flNone}})
-		p.slices = append(p.slices, sliceDef{"pointers/" + sh.name, si, without(formAssignments(p.alpha, sh.nslots), sh.objForms...), [][]int{none, mixedDamage(n)}, []flagSet{flNone, flPtr, flDry}})
-		p.slices = append(p.slices, sliceDef{"flags/" + sh.name, si, sh.objForms[1:], [][]int{mixedDamage(n)}, []flagSet{flDryObj, flDryPtr, flBoth, flShort}})
+		p.slices = append(p.slices, sliceDef{name: "objects1/" + sh.name, shape: si, forms: sh.objForms, damages: damageVectors(n, 0, 1), flags: []flagSet{flNone, flObj, flPtr, flDry}})
+		p.slices = append(p.slices, sliceDef{name: "objects2/" + sh.name, shape: si, forms: [][]form{canon}, damages: damageVectors(n, 2, 2), flags: []flagSet{flNone}})
+		p.slices = append(p.slices, sliceDef{name: "pointers/" + sh.name, shape: si, forms: without(formAssignments(p.alpha, sh.nslots), sh.objForms...), damages: [][]int{none, mixedDamage(n)}, flags: []flagSet{flNone, flPtr, flDry}})
+		p.slices = append(p.slices, sliceDef{name: "flags/" + sh.name, shape: si, forms: sh.objForms[1:], damages: [][]int{mixedDamage(n)}, flags: []flagSet{flDryObj, flDryPtr, flBoth, flShort}})
 		if sh.name == "dup" || sh.name == "staged" {
 			// the remaining (assignment over {canon,crlf,raw}) x (single damage) cells: with objects1 and pointers the product is complete there
 			fls := []flagSet{flNone}
 			if sh.name == "staged" {
 				fls = []flagSet{flNone, flDry}
 			}
-			p.slices = append(p.slices, sliceDef{"cross/" + sh.name, si, without(formAssignments([]form{fCanon, fCRLF, fRaw}, sh.nslots), sh.objForms...), damageVectors(n, 1, 1), fls})
+			p.slices = append(p.slices, sliceDef{name: "cross/" + sh.name, shape: si, forms: without(formAssignments([]form{fCanon, fCRLF, fRaw}, sh.nslots), sh.objForms...), damages: damageVectors(n, 1, 1), flags: fls})
 		}
 	}
+	// the explorer finishes the subtree of slice 1 first and the rest of slice 0 last: put the attrsize slices right after slice 0
+	var front, rest []sliceDef
+	for i, sl := range p.slices {
+		if i > 0 && strings.HasPrefix(sl.name, "attrsize/") {
+			front = append(front, sl)
+		} else {
+			rest = append(rest, sl)
+		}
+	}
+	p.slices = append(append([]sliceDef{rest[0]}, front...), rest[1:]...)
 	return p
 }
 
@@ -364,16 +412,17 @@ func (ev *env) run(x *vx.X) vx.Result {
 	pl := ev.plan
 	sl := pl.slices[x.In(len(pl.slices))]
 	sh := &ev.shapes[sl.shape]
+	avs, revs, excls := sl.domains(&pl, sh)
 	assign := sl.forms[x.In(len(sl.forms))]
+	av := avs[x.In(len(avs))]
 	vec := sl.damages[x.In(len(sl.damages))]
-	revs := pl.revs[sl.shape]
 	rv := revs[x.In(len(revs))]
 	fl := sl.flags[x.In(len(sl.flags))]
-	ex := sh.excl[x.In(len(sh.excl))]
+	ex := excls[x.In(len(excls))]
 
-	id := fmt.Sprintf("%s forms=%s damage=%s rev=%q flags=%v exclude=%q", sh.name, formKey(assign), vecKey(vec), rv.arg, fl.args, ex.pattern)
+	id := fmt.Sprintf("%s forms=%s attrs=%s damage=%s rev=%q flags=%v exclude=%q", sh.name, formKey(assign), av.name, vecKey(vec), rv.arg, fl.args, ex.pattern)
 	res := vx.Result{Counters: map[string]int64{}}
-	sample := map[string]interface{}{"shape": sh.name, "forms": formKey(assign), "rev": rv.arg, "flags": strings.Join(fl.args, " "), "fetchexclude": ex.pattern}
+	sample := map[string]interface{}{"shape": sh.name, "forms": formKey(assign), "gitattributes": av.name, "rev": rv.arg, "flags": strings.Join(fl.args, " "), "fetchexclude": ex.pattern}
 	dm := map[string]string{}
 	for i, d := range vec {
 		if d != dIntact {
@@ -383,7 +432,7 @@ func (ev *env) run(x *vx.X) vx.Result {
 	sample["damage"] = dm
 	res.Sample = sample
 
-	base := ev.bases.get(sh, assign)
+	base := ev.bases.get(sh, assign, av)
 	if base.err != "" {
 		res.ToolErr = "base repository construction failed: " + base.err
 		return res
@@ -743,6 +792,10 @@ func (ev *env) run(x *vx.X) vx.Result {
 			nontrivial = true
 		}
 	}
+	if av.name != attrShort.name {
+		nontrivial = true
+		res.Counters["A.padded-gitattributes-case/"+av.name]++
+	}
 	if nontrivial {
 		res.NonTrivial = []string{id}
 	}
@@ -773,9 +826,10 @@ func TestVerifC13(t *testing.T) {
 	per := map[string]interface{}{}
 	for _, sl := range ev.plan.slices {
 		sh := shs[sl.shape]
-		nr := len(ev.plan.revs[sl.shape])
-		n := len(sl.forms) * len(sl.damages) * nr * len(sl.flags) * len(sh.excl)
-		per[sl.name] = map[string]int{"form_assignments": len(sl.forms), "damage_vectors": len(sl.damages), "rev_args": nr, "flag_sets": len(sl.flags), "fetchexclude_values": len(sh.excl), "cases": n}
+		sl := sl
+		avs, rvs, exs := sl.domains(&ev.plan, &sh)
+		n := len(sl.forms) * len(avs) * len(sl.damages) * len(rvs) * len(sl.flags) * len(exs)
+		per[sl.name] = map[string]int{"form_assignments": len(sl.forms), "gitattributes_variants": len(avs), "damage_vectors": len(sl.damages), "rev_args": len(rvs), "flag_sets": len(sl.flags), "fetchexclude_values": len(exs), "cases": n}
 		total += n
 	}
 	var alpha []string
@@ -788,12 +842,13 @@ func TestVerifC13(t *testing.T) {
 	c.Bounds["damage_kinds"] = damageNames[1:]
 	c.Bounds["slices"] = per
 	c.Bounds["planned_cases"] = total
-	c.Rule = "one case = (shape, pointer-form assignment to the 3 form slots, damage vector over the local objects, revision argument, flag set, lfs.fetchexclude value); " +
+	c.Rule = "one case = (shape, pointer-form assignment to the 3 form slots, .gitattributes size/layout variant, damage vector over the local objects, revision argument, flag set, lfs.fetchexclude value); " +
 		"the explored set is a union of disjoint COMPLETE products (slices, listed with their sizes under bounds.slices), every slice crossed with every revision argument and fetchexclude value of its shape: " +
-		"quick: objects/* = all-canonical history x every damage vector with <=1 damaged object (5 damage kinds) x {no flag, --dry-run}; pointers/* = every other assignment over {canon,crlf,raw} x the mixed damage vector x {no flag, --pointers, --objects}. " +
+		"quick: objects/* = all-canonical history x every damage vector with <=1 damaged object (5 damage kinds) x {no flag, --dry-run} (fetchexclude crossed only for shape dup); pointers/* = every other assignment over {canon,crlf,raw} x the mixed damage vector x {no flag, --pointers, --objects}. " +
 		"thorough: objects1/* = {all canonical, one mixed assignment} x <=1 damaged x {no flag, --objects, --pointers, --dry-run}; objects2/* = all canonical x exactly 2 damaged (all kind pairs) x {no flag}; pointers/* = every other assignment over {canon,crlf,raw,nonl} x {intact, mixed damage} x {no flag, --pointers, --dry-run}; " +
 		"flags/* = 4 further flag spellings on the mixed assignment; cross/{dup,staged} = the remaining (assignment over {canon,crlf,raw} x single damage) cells (staged: also under --dry-run) so that forms x single damages is a full product there.  " +
-		"distinct_nontrivial = distinct cases in which at least one object is damaged or one path is not a canonical pointer (all-intact all-canonical cases only count as executions)"
+		"both tiers: attrsize/misc = size and layout of the .gitattributes blobs (root and nested: 1023, 1024, 1025, 4000 bytes with the tracking lines first, 1024 and 4000 with them last; thorough adds both-large, all revision arguments and fetchexclude values) x all 27 assignments over {canon,crlf,raw} x {no flag, --pointers}.  " +
+		"distinct_nontrivial = distinct cases in which at least one object is damaged, one path is not a canonical pointer or a .gitattributes file is padded (all-intact all-canonical cases only count as executions)"
 	c.Assumptions = []string{
 		"scope per docs/man/git-lfs-fsck.adoc: no argument = HEAD plus (objects only) the index; one committish = that commit only; A..B = the commits in the range",
 		"A..B, objects: an object referenced by a tree of the range but already referenced in A or an ancestor may or may not be named (man page silent on whether unchanged files of the range count); objects first referenced inside the range must be named",
